@@ -384,53 +384,68 @@ def check_walker_and_capture(chk, ix):
 
 
 def check_illegal_char_table(chk, ix):
-    """J7: the table the sanitiser's pattern is built from covers every code point XML 1.0 forbids.
+    """J7: the sanitiser removes every code point XML 1.0 forbids and leaves the others alone - decided by evaluating
+    _escape_invalid_xml_chars (the source, with re / str.translate / chr folded) on the boundary code points of
     XML 1.0 Char ::= #x9 | #xA | #xD | [#x20-#xD7FF] | [#xE000-#xFFFD] | [#x10000-#x10FFFF]"""
     chk.rule("J7", WHAT["J7"])
-    f = ix.func("behave.reporter.junit:_compile_invalid_re")
-    table = None
-    for n in ast.walk(f.node):
-        if isinstance(n, ast.Assign) and isinstance(n.value, ast.List) and n.value.elts and all(isinstance(e, ast.Tuple) and len(e.elts) == 2 for e in n.value.elts):
-            try:
-                table = [tuple(ix.fold(x, f.module) for x in e.elts) for e in n.value.elts]
-            except NotConst:
-                table = None
-    if not table or not all(isinstance(a, int) and isinstance(b, int) for a, b in table):
-        raise AnalysisError("anchor missing: the literal table of illegal code point ranges in _compile_invalid_re")
-    must = [(0x00, 0x08), (0x0B, 0x0C), (0x0E, 0x1F), (0xD800, 0xDFFF), (0xFFFE, 0xFFFF)]
-    legal_must_not = [0x09, 0x0A, 0x20, 0x41, 0xD7FF, 0xE000, 0xFFFD, 0x10000]
+    f = ix.func("behave.reporter.junit:_escape_invalid_xml_chars")
+    if f is None:
+        raise AnalysisError("anchor missing: behave.reporter.junit:_escape_invalid_xml_chars")
+    forbidden = [0x00, 0x01, 0x08, 0x0B, 0x0C, 0x0E, 0x1B, 0x1F, 0xD800, 0xDBFF, 0xDFFF, 0xFFFE, 0xFFFF]
+    legal = [0x09, 0x0A, 0x20, 0x41, 0x7E, 0xA0, 0xE9, 0xD7FF, 0xE000, 0xFFFD, 0x10000, 0x1F600]
+    it = Interp(ix)
+    it.fold_regex = True
+    it.int_sat = 10 ** 7
+    it.list_cap = 200000
 
-    def covered(cp):
-        return any(lo <= cp <= hi for lo, hi in table)
-    for lo, hi in must:
+    def run(text):
+        st = State()
+        st.frames = []
+        outs = it.call_function(st, f, [text], {}, None)
+        if len(outs) != 1 or outs[0][1] != "val" or not isinstance(outs[0][2], str):
+            raise AnalysisError("_escape_invalid_xml_chars(%r) does not evaluate to one constant string (%s): the sanitiser is written "
+                                "in a way this analysis cannot fold" % (text, [(k, repr(v)[:60]) for _, k, v in outs][:3]))
+        return outs[0][2]
+    for cp in forbidden:
         chk.instance("J7")
-        missing = [cp for cp in range(lo, hi + 1) if not covered(cp)]
-        if not missing:
-            chk.ok("J7", {"forbidden_range": "U+%04X-U+%04X" % (lo, hi), "covered_by_table": True}, nontrivial_key=(lo, hi))
+        text = "a" + chr(cp) + "b"
+        out = run(text)
+        if chr(cp) not in out:
+            chk.ok("J7", {"forbidden": "U+%04X" % cp, "sanitised_to": ascii(out)}, nontrivial_key=cp)
         else:
-            chk.fail(Finding("J7", f.fullname, "U+%04X not in the table" % missing[0],
-                             "the code points %s (forbidden in XML 1.0) are not in the table the sanitiser's pattern is built from: such a "
-                             "character in a name, message or captured output is written raw and the report is not well-formed" % (
-                                 ", ".join("U+%04X" % c for c in missing[:6])), file=f.file, line=f.lineno, stmt="def _compile_invalid_re"))
+            chk.fail(Finding("J7", f.fullname, "U+%04X survives" % cp,
+                             "the code point U+%04X (forbidden in XML 1.0) survives _escape_invalid_xml_chars (%s -> %s): such a character in a "
+                             "name, message or captured output is written raw and the report is not well-formed" % (cp, ascii(text), ascii(out)),
+                             file=f.file, line=f.lineno, stmt="def _escape_invalid_xml_chars"))
     chk.instance("J7")
-    bad = [cp for cp in legal_must_not if covered(cp)]
+    bad = []
+    for cp in legal:
+        text = "a" + chr(cp) + "b"
+        if run(text) != text:
+            bad.append(cp)
     if not bad:
-        chk.ok("J7", {"ordinary characters (tab, newline, space, letters, plane-1)": "not in the table"}, nontrivial_key="legal")
+        chk.ok("J7", {"ordinary characters (tab, newline, space, letters, non-ASCII, astral)": "unchanged"}, nontrivial_key="legal")
     else:
-        chk.fail(Finding("J7", f.fullname, "U+%04X is in the table" % bad[0], "the table of illegal characters contains the ordinary characters %s: "
+        chk.fail(Finding("J7", f.fullname, "U+%04X is altered" % bad[0], "the sanitiser alters the ordinary characters %s: "
                          "reports lose legitimate text" % ", ".join("U+%04X" % c for c in bad), file=f.file, line=f.lineno))
-    # the table is what the pattern is compiled from and the pattern is what the escape function applies
+    # a mixed text: every forbidden character goes, everything else stays in order
     chk.instance("J7")
-    src = unparse(f.node)
-    mod = f.module
-    esc = mod.functions.get("_escape_invalid_xml_chars")
-    uses = esc is not None and any(isinstance(n, ast.Attribute) and isinstance(n.value, ast.Name) and n.value.id in mod.consts and
-                                   unparse(mod.consts[n.value.id]).startswith("_compile_invalid_re(") for n in ast.walk(esc.node))
-    if "re.compile" in src and uses:
-        chk.ok("J7", {"_escape_invalid_xml_chars": "substitutes with the pattern compiled from the table"}, nontrivial_key="wiring")
+    text = "x\x00<tag>\x1b[0m]]\ud800\xe9\ufffe\U0001f600\ty"
+    out = run(text)
+    rest = [c for c in out if ord(c) in forbidden or 0xD800 <= ord(c) <= 0xDFFF]
+    kept = [c for c in text if not (ord(c) in (0x00, 0x1B, 0xD800, 0xFFFE))]
+    pos, okorder = 0, True
+    for c in kept:
+        j = out.find(c, pos)
+        if j < 0:
+            okorder = False
+            break
+        pos = j + 1
+    if not rest and okorder:
+        chk.ok("J7", {"mixed text": ascii(text), "sanitised_to": ascii(out)}, nontrivial_key="mixed")
     else:
-        chk.fail(Finding("J7", f.fullname, "pattern not used", "_escape_invalid_xml_chars does not apply the pattern compiled from the table",
-                         file=f.file, line=f.lineno))
+        chk.fail(Finding("J7", f.fullname, "mixed text", "a text mixing forbidden and ordinary characters is not sanitised correctly: %s -> %s"
+                         % (ascii(text), ascii(out)), file=f.file, line=f.lineno))
 
 
 def check_problem_description_names_step(chk, ix):
